@@ -523,7 +523,10 @@ def applyCore (m : RMatrix) : Item → RMatrix
       | none => m.err            -- `signal` is None: AttributeError
     | none => m
   | .defdef name value =>
-    { m with defs := m.defs.map fun d => if d.name == name && d.level != .env then { d with default := some value } else d }
+    -- `check_numeric_attribute` on every level that has the name: a default that is no number for an INT / HEX / FLOAT definition raises
+    if [Level.signal, Level.frame, Level.ecu, Level.global].all (fun l => numericOk m l name value) then
+      { m with defs := m.defs.map fun d => if d.name == name && d.level != .env then { d with default := some value } else d }
+    else m.err
   | .mul ml =>
     let fi := frameIdx m ml.id
     let m := { m with cur := fi }
@@ -854,6 +857,12 @@ def expectDefs (ds : List DefLine) (dds : List DefDefLine) : List RDef :=
                     default := dds.foldl (fun acc dd => if d.name == dd.name && d.level != .env then some dd.value else acc) none }
 
 def WEcu.expectA (e : WEcu) : REcu := { name := e.name, comment := e.comment, attrs := attrsOf e.attrs }
+
+/-- defaults: well-formed lines, and a number where a definition of that name on a level says so -/
+def wfDefaults (ds : List DefLine) (dds : List DefDefLine) : Bool :=
+  dds.all fun dd => wfDefDef dd &&
+    [Level.signal, Level.frame, Level.ecu, Level.global].all fun l =>
+      numericOk { defs := ds.map fun d => { level := d.level, name := d.name, definition := d.definition } } l dd.name dd.value
 
 /-- definitions: well-formed lines the constructor of `Define` accepts, pairwise different in level and name -/
 def wfDefs (ds : List DefLine) : Bool :=
